@@ -32,7 +32,7 @@ func coreOf(it lr.Item) core {
 // transition to a state that holds the advanced item; every complete LR(1) item has its reduce action.
 func (st *state) validate(kind string) string {
 	b := st.tabs[kind]
-	G := toCFG(st.g)
+	G := st.cfgOf(b)
 	S := stateItems(kind, G)
 	T := b.raw
 	if len(S) != len(T.States) {
